@@ -16,8 +16,11 @@ def move_groups(tier, props=("C08", "C09", "C10", "C11")):
     def add(mode, defs, tag, unwind, timeout=300, slots=1, mem=12):
         dd = dict(defs)
         dd["H_" + mode] = None
+        # results allocated by the call and the transposes run in assert mode (same REQ_/ENS_ text; dfcc's write-set
+        # instrumentation of the allocator paths was measured > 10 min even for 3x3)
+        am = ("DNULL" in dd) or mode in ("TRANSPOSE", "TRANSPOSE2")
         gs.append(Group(gid="K.%s.%s" % (FN[mode].split(" ")[0] + ("2" if mode == "TRANSPOSE2" else ""), tag), props=list(props), harness="k_move.c", function=FN[mode], layer="K",
-                        defines=dd, tus=TUS, enforce=[FN[mode]] if mode != "TRANSPOSE2" else [], unwind=unwind, bounded=True, bound_note="shape " + tag, shape=tag,
+                        defines=dd, tus=TUS, enforce=[FN[mode]] if mode != "TRANSPOSE2" else [], assert_mode=am, solver=("--sat-solver cadical" if am else None), unwind=unwind, bounded=True, bound_note="shape " + tag, shape=tag,
                         timeout=timeout if q else 4 * timeout, slots=slots, mem_gb=mem))
 
     def m3(nr, nc, kd, ka, kb):
@@ -112,6 +115,8 @@ def move_groups(tier, props=("C08", "C09", "C10", "C11")):
 
     # ---- transpose: every size class of the kernels ----
     tshapes = [(1, 1), (3, 5), (8, 8), (7, 12), (16, 16), (9, 30), (32, 32), (33, 50), (64, 64), (3, 130), (17, 65), (65, 17), (64, 70), (70, 64), (70, 70), (1, 200), (200, 1)]
+    # leftover-strip classes of the 64-block kernels (lt64x64: leftover rows 1,2,3-4,5-8,9-16,17-32,33-63; 64xlt64: leftover columns)
+    tshapes += [(1, 64), (2, 64), (3, 64), (5, 64), (9, 64), (17, 64), (33, 64), (64, 2), (64, 3), (64, 5), (64, 9), (64, 17), (64, 33), (66, 65)]
     if not q:
         tshapes += [(127, 128), (128, 128), (129, 130), (64, 192), (191, 65), (5, 513), (513, 3)]
     for (nr, nc) in tshapes:
